@@ -123,7 +123,7 @@ def main(tier: str, seed: int) -> int:
             traces.append(pairs.pair_trace(o, o, o["steps"][:n], o["steps"][n : 2 * n],
                                            meta={"scenario": label, "seed": sd, "variant": "reseed_on_reset"}))
     res = tlc.validate("PairTrace", traces)
-    common.judge_traces(chk, "Pair", traces, res, sig_fn)
+    common.judge_traces(chk, "Pair", traces, res, sig_fn, selftest="PairTrace")
     chk.cov["states"] = res["distinct"]
     chk.cov["transitions"] = res["states"]
     chk.cov["rule"] = ("each case = (scenario, seed, action sequence) executed under an ambient profile in its own process; "
